@@ -513,6 +513,18 @@ func runC15(c *ctx, r *Report) error {
 	writeProject(root, "", nil)
 	r.sample(map[string]interface{}{"op": "main", "cwd": "/home/repo/sub/dir", "spelling": "relative", "config_glob": ".github/workflows/*.yml", "reference_diagnostics": len(ref)})
 	r.sample(map[string]string{"op": "relpath", "cwd": "/home/u/repo/sub", "root": "/home/u/repo", "spelled": "../.github/workflows/a.yml", "impl": actionlint.VerifPathFromProjectRoot("/home/u/repo/sub", "../.github/workflows/a.yml", "/home/u/repo")})
-	_, err = b.flush(c, r)
-	return err
+	if _, err = b.flush(c, r); err != nil {
+		return err
+	}
+	// the configuration file itself: config.go ParseConfig (decoding incl. nil vs empty config-variables, null elements and
+	// null keys that yaml.v3 drops, IgnorePatterns, the glob keys validated in sorted order) against AL.ConfigDecode
+	nC := 1500
+	if !c.quick {
+		nC = 60000
+	}
+	if err := cfStandard(c, r, nC); err != nil {
+		return err
+	}
+	r.Rule += fmt.Sprintf("; %d generated actionlint.yaml files parsed by the real ParseConfig and by the Lean model AL.ConfigDecode (op configmeta; regexp.Compile and doublestar.ValidatePattern answer for the model)", nC)
+	return nil
 }
